@@ -14,7 +14,7 @@ use shared::query as kq;
 pub const DEF: PropDef = PropDef {
     id: "C16",
     level: "exploration",
-    rule: "totality: (i) every string of <=3 (thorough <=4) tokens over a 30-token alphabet (keywords, braces, variables, IRIs, prefixed names, literals incl. multi-byte, triple quotes, << >>, ^^, @, backslash, #, bare multi-byte char, newline) joined with and without spaces; (ii) every single mutation (delete char at i / insert or substitute each of 14 special chars incl. multi-byte at i / truncate at i) of a seed corpus of ~60 requests covering SELECT forms, all six update forms and the RULE / REGISTER / RETRIEVE / ML.PREDICT extensions, and every double mutation of the shortest seeds (thorough); each input goes through parse_combined_query, parse_combined_query_with_options(_, true), parse_sparql_query and parse_group_graph_pattern under catch_unwind: never a panic, and Ok from the three whole-request parsers implies nothing but whitespace/comments remains. Faithfulness: every query of the C01 generator list and every update of the C03 alphabet, printed in 6 layouts (canonical, minimal whitespace, newlines+comments, lower-case and mixed-case keywords, ;/, abbreviations with optional dots omitted), must parse, and the parsed tree converted to the reference AST must equal the generated AST (nesting, pattern order, lexical terms, filter tree, modifiers) for every layout. Non-trivial = mutation/token inputs that are accepted by at least one parser, and every faithfulness case; distinct by input text.",
+    rule: "totality: (i) every string of <=3 (thorough <=4) tokens over a 34-token alphabet (keywords, braces, variables, IRIs, prefixed names, literals incl. multi-byte, triple quotes, << >>, ^^, @, backslash, #, bare multi-byte char, newline) joined with and without spaces; (ii) every single mutation (delete char at i / insert or substitute each of 14 special chars incl. multi-byte at i / truncate at i) of a seed corpus of ~60 requests covering SELECT forms, all six update forms and the RULE / REGISTER / RETRIEVE / ML.PREDICT extensions, and every double mutation of the shortest seeds (thorough); each input goes through parse_combined_query, parse_combined_query_with_options(_, true), parse_sparql_query and parse_group_graph_pattern under catch_unwind: never a panic, and Ok from the three whole-request parsers implies nothing but whitespace/comments remains. Literal escape matrix: every escape kind (\\t \\n \\\" \\\\ \\' \\b \\f \\r \\uXXXX \\UXXXXXXXX) followed by every kind of next character (closing quote, ASCII, multi-byte, another escape) after three prefixes, as triple object, FILTER operand and VALUES term: accepted, fully consumed, and the token handed on verbatim. Faithfulness: every query of the C01 generator list and every update of the C03 alphabet, printed in 6 layouts (canonical, minimal whitespace, newlines+comments, lower-case and mixed-case keywords, ;/, abbreviations with optional dots omitted), must parse, and the parsed tree converted to the reference AST must equal the generated AST (nesting, pattern order, lexical terms, filter tree, modifiers) for every layout. Non-trivial = mutation/token inputs that are accepted by at least one parser, and every faithfulness case; distinct by input text.",
     assumptions: &[
         "nesting deeper than the generator produces (stack exhaustion) is outside the explored space",
         "tree comparison is modulo the two normalisations the grammar itself makes unobservable: adjacent triples blocks merge, and a braced group with a single non-FILTER/BIND element is the element",
@@ -256,7 +256,8 @@ fn norm_update(u: &Update) -> Update {
 // totality
 // ---------------------------------------------------------------------------------------
 
-pub const TOKENS: [&str; 30] = [
+pub const TOKENS: [&str; 34] = [
+    "\"\\u0041\"", "\"x\\u00e9\"", "\"\\U0001F600é\"", "<http://e/\\u0041>",
     "SELECT", "WHERE", "{", "}", "?x", "<http://e/a>", "ex:a", "\"lit\"", "\"é\"", "'''", "<<", ">>", "^^", "@en", "\\", "#", "é", "\n", ".", ";", ",", "(", ")", "FILTER", "GRAPH", "UNION", "INSERT", "DELETE", "DATA", "*",
 ];
 
@@ -278,6 +279,9 @@ pub fn seed_corpus() -> Vec<String> {
     v.push("SELECT ?s WHERE { ?s <http://e/p> '''long\nliteral''' . }".into());
     v.push("SELECT ?s WHERE { ?s <http://e/p> \"x\"^^<http://www.w3.org/2001/XMLSchema#string> . }".into());
     v.push("SELECT ?s WHERE { ?s <http://e/q> ?v . FILTER((?v + 1) * 2 > 3) }".into());
+    v.push("SELECT ?s WHERE { ?s <http://e/p> \"caf\\u00e9\" . }".into());
+    v.push("SELECT ?s WHERE { ?s <http://e/p> \"\\u0041é\\t\\\"q\\\"\\U0001F600\"@en . FILTER(?s != <http://e/\\u0041>) }".into());
+    v.push("INSERT DATA { <http://e/a> <http://e/p> \"l\\u00e9\\n\" . }".into());
     v.push("RULE :OverheatingAlert :- CONSTRUCT { ?room ex:overheatingAlert true . } WHERE { ?reading ex:room ?room ; ex:temperature ?temp FILTER (?temp > 80) }".into());
     v.push("RULE :R PROB(combination=independent, threshold=0.3, confidence=0.9) :- CONSTRUCT { ?x :r ?z . } WHERE { ?x :r ?y . ?y :r ?z . }".into());
     v.push("REGISTER ISTREAM <http://out/stream> AS SELECT * FROM NAMED WINDOW :w ON ?stream [RANGE 3 STEP 1] WHERE { WINDOW :w { ?s a <http://test/IType> . } }".into());
@@ -446,6 +450,62 @@ pub fn faithful_update(u: &Update, layout: Layout) -> Result<(), (String, String
     }
 }
 
+/// Literal escape matrix: every escape kind followed by every kind of next character (closing quote,
+/// ASCII, multi-byte, another escape), in three syntactic positions. A valid literal token must be
+/// accepted by the whole-request parsers, consumed entirely, and handed on verbatim.
+pub fn escape_matrix() -> Vec<(String, String)> {
+    let escapes = ["\\t", "\\n", "\\\"", "\\\\", "\\'", "\\u0041", "\\u00e9", "\\U0001F600", "\\b", "\\f", "\\r"];
+    let mut lits: Vec<String> = Vec::new();
+    for pre in ["", "a", "é"] {
+        for e1 in escapes {
+            let mut nexts: Vec<String> = vec!["".into(), "a".into(), "é".into(), "😀".into(), " ".into()];
+            nexts.extend(escapes.iter().map(|x| x.to_string()));
+            for n in nexts {
+                for suf in ["", "z"] {
+                    lits.push(format!("\"{}{}{}{}\"", pre, e1, n, suf));
+                }
+            }
+        }
+    }
+    let mut out = Vec::new();
+    for l in lits {
+        out.push((format!("SELECT ?s WHERE {{ ?s <http://e/p> {} . }}", l), l.clone()));
+        out.push((format!("SELECT ?s WHERE {{ ?s <http://e/p> ?o . FILTER(?o = {}) }}", l), l.clone()));
+        out.push((format!("SELECT ?s WHERE {{ VALUES ?o {{ {} }} ?s <http://e/p> ?o . }}", l), l.clone()));
+    }
+    out
+}
+
+/// Err((symptom, detail)) when a valid literal token is not accepted verbatim
+pub fn escape_matrix_one(text: &str, token: &str) -> Result<(), (String, String)> {
+    for which in ["parse_sparql_query", "parse_combined_query"] {
+        let got = guarded(|| -> Result<String, String> {
+            let q = if which == "parse_sparql_query" {
+                parse_sparql_query(text).map_err(|e| format!("rejected: {:?}", e))?.1
+            } else {
+                match parse_combined_query(text).map_err(|e| format!("rejected: {:?}", e))?.1.sparql {
+                    Some(kq::SparqlOperation::Select(q)) => q,
+                    other => return Err(format!("not parsed as SELECT: {:?}", other)),
+                }
+            };
+            Ok(format!("{:?}", q.pattern))
+        });
+        match got {
+            Err(p) => return Err(("panic".into(), format!("{} on {:?}: {}", which, text, p))),
+            Ok(Err(e)) => return Err(("valid_query_rejected".into(), format!("{} on {:?}: {}", which, text, crate::infra::truncate(&e, 300)))),
+            Ok(Ok(debug)) => {
+                // the lexical token must appear verbatim in the tree (Debug escapes quotes and backslashes)
+                let needle = format!("{:?}", token);
+                let needle = &needle[1..needle.len() - 1];
+                if !debug.contains(needle) {
+                    return Err(("tree_differs".into(), format!("{} on {:?}: literal token {} not found verbatim in {}", which, text, token, crate::infra::truncate(&debug, 400))));
+                }
+            }
+        }
+    }
+    Ok(())
+}
+
 /// updates that the parser itself must refuse (syntactic validation of DATA blocks)
 fn update_is_syntactically_valid(u: &Update) -> bool {
     let has_var = |q: &Vec<QuadT>| q.iter().any(|x| x.t.s.is_var() || x.t.p.is_var() || x.t.o.is_var());
@@ -556,6 +616,20 @@ fn run(ctx: &Ctx) -> ShardOut {
             out.sample(json!({"faithfulness": print_select(s, Layout::Commented)}));
         }
     }
+    // literal escape matrix
+    for (text, token) in escape_matrix() {
+        idx += 1;
+        if !ctx.mine(idx) {
+            continue;
+        }
+        out.evaluations += 1;
+        out.count("escape_matrix_cases", 1);
+        out.nontrivial(&text);
+        record_totality(&mut out, ctx, "escape_matrix", &text);
+        if let Err((sym, detail)) = escape_matrix_one(&text, &token) {
+            out.fail(json!({"family": "escape_matrix", "input": text, "token": token}), &sym, detail, vec!["family=escape_matrix".into(), format!("multibyte={}", !text.is_ascii())]);
+        }
+    }
     if ctx.shard == 0 {
         for (ui, u) in ugen::valid_updates().iter().enumerate() {
             if !update_is_syntactically_valid(u) {
@@ -607,6 +681,15 @@ fn replay(ctx: &Ctx, case: &Value) -> ShardOut {
                 if let Err((sym, detail)) = faithful_update(u, layout) {
                     out.fail(case.clone(), &sym, detail, vec![format!("layout={:?}", layout), "family=faithfulness_update".into()]);
                 }
+            }
+        }
+        "escape_matrix" => {
+            let input = case["input"].as_str().unwrap_or("").to_string();
+            let token = case["token"].as_str().unwrap_or("").to_string();
+            out.evaluations += 1;
+            record_totality(&mut out, ctx, "escape_matrix", &input);
+            if let Err((sym, detail)) = escape_matrix_one(&input, &token) {
+                out.fail(case.clone(), &sym, detail, vec!["family=escape_matrix".into(), format!("multibyte={}", !input.is_ascii())]);
             }
         }
         fam => {
